@@ -245,3 +245,22 @@ func hSoupHeaders(a string) string {
 func hSoupInsts(a string) string {
 	return "declare i32 @g(i32)\ndeclare void @v()\ndeclare i32 @pers(...)\n" + "define void @" + a + "(" + "i32 %x, i32* %p, float %fl, <2 x float> %vf, i1 %c, { i32, i8 } %agg) personality i8* bitcast (i32 (...)* @pers to i8*) {\nentry:\n  %a1 = add nuw nsw i32 %x, 1\n  %a2 = sub nsw i32 %a1, %x\n  %a3 = mul nuw i32 %a2, 3\n  %a4 = shl nuw nsw i32 %a3, 1\n  %a5 = udiv exact i32 %a4, 2\n  %a6 = ashr exact i32 %a5, 1\n  %f1 = fadd fast float %fl, 1.0\n  %f2 = fmul nnan ninf nsz arcp contract afn reassoc float %f1, %fl\n  %f3 = fneg nnan float %f2\n  %f4 = fcmp nnan ninf olt float %f3, %fl\n  %s1 = select fast i1 %c, float %f1, float %f2\n  %al = alloca inalloca i32, i32 2, align 8\n  %l1 = load volatile i32, i32* %p, align 4\n  %l2 = load atomic volatile i32, i32* %p syncscope(\"agent\") seq_cst, align 4\n  store volatile i32 %l1, i32* %p, align 4\n  store atomic volatile i32 %l2, i32* %p syncscope(\"agent\") release, align 4\n  fence syncscope(\"agent\") acq_rel\n  %cx = cmpxchg weak volatile i32* %p, i32 %l1, i32 %l2 syncscope(\"agent\") acq_rel monotonic, align 4\n  %rmw = atomicrmw volatile xchg i32* %p, i32 %x syncscope(\"agent\") acquire, align 4\n  %gp = getelementptr inbounds i32, i32* %p, i32 1\n  %c1 = tail call fastcc zeroext i32 @g(i32 signext %x) #0\n  %c2 = notail call i32 @g(i32 %x)\n  %ev = extractvalue { i32, i8 } %agg, 0\n  %ve = extractelement <2 x float> %vf, i32 0\n  %sv = shufflevector <2 x float> %vf, <2 x float> %vf, <2 x i32> <i32 0, i32 3>\n  %iv = invoke fastcc i32 @g(i32 %x) to label %ok unwind label %lp\nok:\n  %ph = phi fast float [ %f1, %entry ]\n  ret void\nlp:\n  %e = landingpad { i8*, i32 } cleanup catch i8* null filter [0 x i8*] zeroinitializer\n  resume { i8*, i32 } %e\n}\nattributes #0 = { nounwind }\n"
 }
+
+// VfC02_Unnamed: up to three unnamed top-level entities of every kind (global
+// variable, function, alias, ifunc) in every textual order, numbered in
+// textual order as LLVM requires, one of them used by a named global: the
+// printed text (entities regrouped by the printer, renumbered in output order)
+// is accepted again and is a fixpoint.
+//
+//vf:unwind 200
+//vf:shards 4
+func VfC02_Unnamed() {
+	n := vfLen("n", 1, 3)
+	src := ""
+	for i := 0; i < n; i++ {
+		k := vfChoice("kind"+string(rune('0'+i)), 4)
+		src += hUnnamedEntity(k, "@"+string(rune('0'+i)))
+	}
+	src += "@t = global i32 7\n@user = global i8* bitcast (i32* @t to i8*)\ndeclare void ()* @res()\n"
+	hC02Check(src)
+}
